@@ -32,7 +32,7 @@ _URL = re.compile(r'^[a-z]+:')
 REL_DIRS = ['', 'lib/', 'lib/sub/', 'other/', 'lib/sub/deep/']
 ABS_DIRS = ['/abs/', '/abs/d/']
 URL_DIRS = ['http://h/base/', 'http://h/base/x/', 'http://h/other/', 'https://k/', 'file:/srv/shared/', 'vfs:/pkg/']      # (a URL is a scheme and a colon - no // needed)
-SYS_PREFIXES = ['sys/', 'http://h/sys/', '/opt/sys/', 'lib/sys/', None]
+SYS_PREFIXES = ['sys/', 'http://h/sys/', '/opt/sys/', 'lib/sys/', None, '']       # ('' is a configured prefix too: the current directory)
 
 
 def normloc(u):
